@@ -283,10 +283,12 @@ register('C05',
          'that the revert is versioned like any other change is C01 on the recorded revert transaction. Histories are run on the real '
          'code, a version (first / middle / last / delete; entity live or deleted) and a relationship subset are chosen, revert + commit '
          'executed, and the live tables compared with the model and with the property clauses.',
-         COMMON_NOTE + 'Dotted relationship paths (tags.article, labels.articles, article.tags) are generated, but the revert model has '
-         'one level: for them only the clauses about the reverted entity itself (columns, named first-level sets, no error) and the '
-         'Layer-B correspondence of the whole run are judged; the effect on other entities reached through the nested path is not '
-         'modelled. A quarter of the cases revert a second time to the same version in the same session.',
+         COMMON_NOTE + 'Dotted relationship paths of two and three segments are generated; the functional revert model has one level. Below it '
+         'the traversal `reach` (first_level / subpaths of reverter.py, characterised by C05_first_level_spec / C05_subpaths_spec, and the '
+         'relationship functions of C04) lists the versions the call visits; when no entity other than the root is reached twice every '
+         'reached entity must hold the values of the version it was reached by and a reached article whose path goes on with tags must have '
+         'exactly the tags that version shows (observation predicate nested_ok, no theorem); otherwise only the clauses about the reverted '
+         'entity itself are judged. A quarter of the cases revert a second time to the same version in the same session.',
          'Coq proof (equational reasoning on the revert function) + vm_compute correspondence against version.revert()',
          'DESIGN.md §7 C05')
 
